@@ -81,9 +81,13 @@ def unit_constructor(ctx, state, stale_buffer, variant="tsv"):
             # claims left behind by a killed run (any buffer file the previous session may have used in this directory)
             for nm in ("panoptica_aggregator_tmp.tsv", "results.tsv.panoptica_aggregator_tmp.tsv"):
                 fs.files["/data/run/" + nm] = [[" s1"], ["zombie"]]
-        return [mk_evaluator(e), ARG], {}
+        ev_ = mk_evaluator(e)
+        return [ev_, ARG], {}, {"evaluator": ev_, "ev0": len(e.events)}
     paths = eng.run(PA + "Panoptica_Aggregator", mk)
     fn = PA + "Panoptica_Aggregator.__init__"
+    wr_ = [ev for p_ in paths for ev in p_.events[p_.state["ev0"]:] if ev[0] == "setattr" and isinstance(p_.state.get("evaluator"), SObj) and ev[1] == p_.state["evaluator"].oid]
+    ctx.oblige(f"panoptica_aggregator.Panoptica_Aggregator.__init__[{state}{', stale buffer' if stale_buffer else ''}]/frame(the evaluator handed in is not modified: sibling aggregators sharing it are unaffected)", [],
+               z3.BoolVal(not wr_), func=fn, replay="c17.shared_evaluator", info={"structural": True, "writes": str(sorted({e_[3] for e_ in wr_})[:4])})
     nm = f"panoptica_aggregator.Panoptica_Aggregator.__init__[{state}{', stale buffer' if stale_buffer else ''}{', path without extension' if variant == 'noext' else ''}]"
     info = {"state": state, "stale": stale_buffer}
     ctx.oblige(f"{nm}/single-path", [], z3.BoolVal(len(paths) == 1), func=fn)
@@ -275,6 +279,6 @@ def build(ctx):
 def concretise(ctx, o, r):
     if (o.info or {}).get("stage"):
         return stage_concretise(ctx, o, r)
-    if o.replay == "c17.hashseed":
+    if o.replay in ("c17.hashseed", "c17.shared_evaluator"):
         return {}
     return {"obligation": o.name, "state": o.info.get("state"), "collide": o.info.get("collide")}
